@@ -1,6 +1,7 @@
 (* C09 — Operators follow Go's precedence, associativity and arithmetic. Theorems only. *)
 From Tpl Require Import Exp.Eval Proofs.ParseSpec Proofs.ParseRoundtrip Proofs.TernaryAssoc Proofs.IntOps Proofs.GoPrec Proofs.FactsAgree.
 From Tpl Require Proofs.FloatSpec.
+From Tpl Require Exp.FloatFmt Proofs.FloatFmtProps.
 From Flocq Require IEEE754.Bits.
 From Coq Require Reals.
 Open Scope N_scope.
@@ -121,6 +122,23 @@ Print Assumptions mixed_operands_convert_the_integer.
 Print Assumptions float_literal_correctly_rounded.
 (* sub / div / neg, special values (x/0, 0/0, inf-inf, NaN propagation), comparisons with NaN and infinities, mixed
    comparisons against the reals: Proofs/FloatSpec.v (f_sub_spec, f_div_spec, f_div_by_zero, f_nan_propagates, mixed_rel_real) *)
+
+(* %v of a float64 (a float concatenated to a string): the digits the formatter model prints always denote a decimal
+   inside the rounding interval it computed for the float (strictly, or on a boundary of an even mantissa), and no
+   shorter decimal was inside — "shortest that reads back".  That the interval IS the float's rounding interval and that
+   Go prints the same digits is validated by the fmtfloat stream, not proved. *)
+Theorem fmt_shortest_inside : forall fuel f p n c k,
+  FloatFmt.shortest fuel f p n = Some (c, k) -> FloatFmt.inside f c k = true.
+Proof. exact FloatFmtProps.shortest_inside. Qed.
+Theorem fmt_shortest_first : forall fuel f p n c k, FloatFmt.shortest fuel f p n = Some (c, k) ->
+  exists n', (n <= n')%Z /\ k = (p - n' + 1)%Z /\
+    forall m, (n <= m < n')%Z ->
+      let km := (p - m + 1)%Z in
+      let lo := if (0 <=? km)%Z then (FloatFmt.fd_x f / (FloatFmt.fd_den f * FloatFmt.pow10 km))%Z
+                else (FloatFmt.fd_x f * FloatFmt.pow10 (- km) / FloatFmt.fd_den f)%Z in
+      FloatFmt.inside f lo km = false /\ FloatFmt.inside f (lo + 1)%Z km = false.
+Proof. exact FloatFmtProps.shortest_first. Qed.
+Print Assumptions fmt_shortest_inside.
 
 (* Non-vacuity: 1 + 2 * 3 < 8 && !x  is well-formed without any parenthesis and round-trips *)
 Close Scope Z_scope.
